@@ -332,8 +332,14 @@ def run_coll(acc, E, name, eng, nd, fn, values, fname, base_res):
             return
         obj, boxes = forms[fname]
         lsnap = copy.deepcopy(obj) if fname == 'list_of_lists' else None
+        members = [id(x) for x in obj] if isinstance(obj, (list, tuple)) else None     # the caller's container must keep its elements
         r1 = core.call(fn, obj)
         acc.trans()
+        if members is not None and not isinstance(r1, core.Exc) and [id(x) for x in obj] != members:
+            acc.valid()
+            acc.violation('purity', name, eng, dict(tags, what='container elements replaced'), case, 'the list given by the caller still holds the same series objects',
+                          'elements of the caller\'s list were replaced by other objects')
+            return
         if isinstance(r1, core.Exc):
             if r1.refusal or (eng == 'c' and fname == 'list_of_lists'):
                 acc.refused += 1
